@@ -12,9 +12,30 @@ from harness import wire
 _TMP = os.path.join(os.path.dirname(os.path.dirname(os.path.abspath(__file__))), "work")
 
 
+_LINK_HDR = {}
+
+
 def scapy_from_spec(spec):
+    """The packet as Scapy dissects it from the wire bytes: a bare IP datagram, or - spec["link"] - the datagram inside an Ethernet /
+    802.1Q / Linux cooked-capture frame (dissected from the frame's bytes, so a trailer shows up as Scapy's Padding layer)."""
     raw = wire.build(spec)
-    return (ScapyIP if wire.full(spec)["v"] == 4 else ScapyIPv6)(raw)
+    v = wire.full(spec)["v"]
+    link = spec.get("link")
+    if not link:
+        return (ScapyIP if v == 4 else ScapyIPv6)(raw)
+    from scapy.layers.l2 import CookedLinux, Dot1Q, Ether
+    et = 0x0800 if v == 4 else 0x86DD
+    key = (link, et)
+    if key not in _LINK_HDR:
+        mac = dict(src="02:00:00:00:00:01", dst="02:00:00:00:00:02")
+        if link == "ether":
+            _LINK_HDR[key] = (Ether, bytes(Ether(type=et, **mac)))
+        elif link == "dot1q":
+            _LINK_HDR[key] = (Ether, bytes(Ether(type=0x8100, **mac) / Dot1Q(vlan=7, type=et)))
+        else:
+            _LINK_HDR[key] = (CookedLinux, bytes(CookedLinux(proto=et)))
+    cls, hdr = _LINK_HDR[key]
+    return cls(hdr + raw)
 
 
 def scapy_from_bytes(raw, v):
@@ -88,3 +109,34 @@ def dump_db(db):
             return None
     return {"mtu": sec(MTURecord, None), "tcp_req": sec(TCPRecord, Direction.CLIENT_TO_SERVER), "tcp_resp": sec(TCPRecord, Direction.SERVER_TO_CLIENT),
             "http_req": sec(HTTPRecord, Direction.CLIENT_TO_SERVER), "http_resp": sec(HTTPRecord, Direction.SERVER_TO_CLIENT), "len": len(db)}
+
+
+class options_as:
+    """The three ways a caller can hand thresholds / a database to a fingerprint function; all must behave alike:
+    style 0: Options(**vals) passed as `options=`; style 1: a default Options() whose attributes are assigned afterwards (it is a plain
+    mutable dataclass); style 2: the process-wide OPTIONS object tuned in place and the `options` argument omitted.
+    Use as:  with options_as(style, database=db, max_dist=5) as kw: fingerprint_tcp(pkt, **kw)"""
+
+    def __init__(self, style, **vals):
+        self.style, self.vals, self.saved = style % 3, vals, None
+
+    def __enter__(self):
+        from pyp0f.options import OPTIONS, Options
+        if self.style == 0:
+            return {"options": Options(**self.vals)}
+        if self.style == 1:
+            o = Options()
+            for k, v in self.vals.items():
+                setattr(o, k, v)
+            return {"options": o}
+        self.saved = {k: getattr(OPTIONS, k) for k in self.vals}
+        for k, v in self.vals.items():
+            setattr(OPTIONS, k, v)
+        return {}
+
+    def __exit__(self, *a):
+        if self.saved is not None:
+            from pyp0f.options import OPTIONS
+            for k, v in self.saved.items():
+                setattr(OPTIONS, k, v)
+        return False
